@@ -129,3 +129,24 @@ func VH_C12_waitWhileSubmitting() {
 	pool.Close()
 	vAssert(vQuiesce() == 0, "all-pool-goroutines-terminate-after-close")
 }
+
+// repeated Wait rounds with a second goroutine: a Wait issued by another goroutine while a Submit is
+// under way may or may not cover that task — but a Wait called AFTER the Submit returned waits for it
+func VH_C12_waitRacesSubmit() {
+	vUnwind(24)
+	pool := NewWorkerPool(1)
+	effect := make([]int, 1)
+	vRaceChecked(effect)
+	helperDone := false
+	go func() {
+		pool.Wait() // an early Wait on the (possibly still idle) pool
+		vMon(func() { helperDone = true })
+	}()
+	pool.Submit(func() { effect[0] = 1 })
+	pool.Wait()
+	vAssert(effect[0] == 1, "wait-returns-only-after-previously-submitted-tasks-finished")
+	vCover("wait-round-raced-by-a-submit")
+	vBlockUntil(func() bool { return helperDone })
+	pool.Close()
+	vAssert(vQuiesce() == 0, "all-pool-goroutines-terminate-after-close")
+}
